@@ -126,6 +126,16 @@ CheckStmt(prog, s, env) ==
                 pt == IF v.found THEN PlaceType(prog, v.t, s.acc, 1, env) ELSE Err
                 t == TypeOf(prog, s.e, env)
             IN  [ok |-> v.found /\ v.mut /\ pt # Err /\ t = pt, env |-> env, t |-> TUnit]
+      [] s.k = "opassign" ->        \* place op= e  is  place = place op e
+            LET v == Look(env, s.n)
+                pt == IF v.found THEN PlaceType(prog, v.t, s.acc, 1, env) ELSE Err
+                t == TypeOf(prog, s.e, env)
+                okTypes == IF pt = Err \/ t = Err THEN FALSE
+                           ELSE IF s.op \in ArithOps THEN IsInt(pt) /\ t = pt
+                           ELSE IF s.op \in BitOps THEN IsScalar(pt) /\ t = pt
+                           ELSE IF s.op \in {"shl", "shr"} THEN IsInt(pt) /\ t = TI("u8")
+                           ELSE FALSE
+            IN  [ok |-> v.found /\ v.mut /\ okTypes, env |-> env, t |-> TUnit]
       [] s.k = "for" ->
             LET t == TypeOf(prog, s.e, env)
             IN  IF t = Err \/ t.k # "arr" THEN [ok |-> FALSE, env |-> env, t |-> Err]
@@ -191,7 +201,7 @@ TypeOf(prog, e, env) ==
             IN  IF tl = Err \/ tr = Err THEN Err
                 ELSE IF e.op \in ArithOps THEN (IF IsInt(tl) /\ tl = tr THEN tl ELSE Err)
                 ELSE IF e.op \in BitOps THEN (IF IsScalar(tl) /\ tl = tr THEN tl ELSE Err)
-                ELSE IF e.op \in {"lt", "gt"} THEN (IF IsInt(tl) /\ tl = tr THEN TBool ELSE Err)
+                ELSE IF e.op \in {"lt", "gt", "le", "ge"} THEN (IF IsInt(tl) /\ tl = tr THEN TBool ELSE Err)
                 ELSE IF e.op \in {"eq", "ne"} THEN (IF tl = tr THEN TBool ELSE Err)
                 ELSE IF e.op \in {"shl", "shr"} THEN (IF IsInt(tl) /\ tr = TI("u8") THEN tl ELSE Err)
                 ELSE (* land, lor *) (IF tl = TBool /\ tr = TBool THEN TBool ELSE Err)
@@ -229,7 +239,7 @@ CallsE(e) ==
       [] e.k = "join" -> CallsSeq(e.args)
 CallsS(s) ==
     CASE s.k \in {"expr", "let", "letmut"} -> CallsE(s.e)
-      [] s.k = "assign" -> CallsE(s.e) \cup UNION {IF s.acc[i].k = "idx" THEN CallsE(s.acc[i].i) ELSE {} : i \in 1..Len(s.acc)}
+      [] s.k \in {"assign", "opassign"} -> CallsE(s.e) \cup UNION {IF s.acc[i].k = "idx" THEN CallsE(s.acc[i].i) ELSE {} : i \in 1..Len(s.acc)}
       [] s.k = "for" -> CallsE(s.e) \cup CallsStmts(s.body)
       [] s.k = "forjoin" -> CallsE(s.a) \cup CallsE(s.b) \cup CallsStmts(s.body)
 
